@@ -729,27 +729,27 @@ fn patch_add_rectangle() {
 
 
 // PROBE-BEGIN
+#[inline(never)] fn spin_a(n: usize) -> usize { let mut k = 0; let mut i = 0; while i < n { k += 2; i += 1; } k }
+#[inline(never)] fn spin_b(n: usize) -> usize { let mut k = 0; let mut i = 0; while i < n { k += 2; i += 1; } k }
+#[inline(never)] fn spin_c(n: usize) -> usize { let mut k = 0; let mut i = 0; while i < n { k += 2; i += 1; } k }
+#[inline(never)] fn spin_d(n: usize) -> usize { let mut k = 0; let mut i = 0; while i < n { k += 2; i += 1; } k }
 #[kani::proof]
 #[kani::unwind(5)]
 fn probe_patch() {
-    let ih = image_header_with_extra(&[]);
     let canvas_region = Region { left: 0, top: 0, width: 2, height: 2 };
-    let ref_region = Region { left: 0, top: 0, width: 2, height: 2 };
     let old: [[f32; 2]; 2] = finite_samples();
-    let refs: [[f32; 2]; 2] = finite_samples();
     let mut canvas = ImageWithRegion::new(1, None);
     canvas.append_channel(float_buffer(&old), canvas_region);
-    let mut reference = ImageWithRegion::new(1, None);
-    reference.append_channel(float_buffer(&refs), ref_region);
     let mut infos = [BlendingModeInformation { mode: PatchBlendMode::Replace, alpha_channel: 0, clamp: false }];
     let mut targets = [PatchTarget { x: 1, y: 1, blending: stack_vec(&mut infos) }];
     let patch_ref = PatchRef { ref_idx: 0, x0: 0, y0: 0, width: 1, height: 1, patch_targets: stack_vec(&mut targets) };
-    let r = patch(&ih, &mut canvas, &reference, &patch_ref);
-    assert!(r.is_ok());
-    assert!(sample_of(&canvas, 0, 3).to_bits() == refs[0][0].to_bits());
-    std::mem::forget(r);
+    let a = spin_a(canvas.color_channels());
+    let b = spin_b(canvas.regions_and_shifts()[0].0.width as usize);
+    let c = spin_c(canvas.buffer()[0].width());
+    let mut n = 0;
+    for t in &patch_ref.patch_targets { for bi in std::iter::repeat_n(&t.blending[0], 1).chain(&t.blending[1..]) { n += spin_d(bi.mode as usize); } }
+    assert!(a + b + c + n == 2 + 4 + 4 + 2);
     std::mem::forget(canvas);
-    std::mem::forget(reference);
     std::mem::forget(patch_ref);
 }
 // PROBE-END
